@@ -167,6 +167,7 @@ for _k, _v in ROUND7.items():
     CHECKS[_k]["text"] += _v
 ROUND8 = {
  "C02": " Audit round: C02.bound-outputs-constrained (both NFT branches scan to[3..] for slip types); C02.fee-counted - the fee of every user-signed type reaches total_fees_new (decided per type); cross-lists C13.fee-deducted.",
+ "C03": " Audit round: C03.purge-on-chain-only - the purge erases outputs only for blocks flagged in_longest_chain.",
  "C05": " Audit round: C05.height-follows-parent - a block whose parent is known is accepted only with id == parent id + 1; C05.density-anchor now requires the density rule for every block of the new chain.",
  "C06": " Audit round: known finding C06.tx-hash-coverage|leaf|path (the merkle leaf does not cover routing paths).",
  "C08": " Audit round: C08.unrouted-types-no-work - block-made types (ATR, Fee, Issuance, SPV), whose paths are never verified, get no routing work.",
